@@ -17,6 +17,18 @@ pub fn run(args: &[String]) {
     let seed: u64 = args.get(0).and_then(|s| s.parse().ok()).unwrap_or(0);
     let n: usize = args.get(1).and_then(|s| s.parse().ok()).unwrap_or(500);
     let mut rng = Rng::new(seed ^ 0xC15);
+    if args.get(2).map(|s| s.as_str()) == Some("charge") {
+        // C10: the same request at charge 0 and at charge z
+        for id in 0..n {
+            let mass = gen_mass(&mut rng).min(1e7);
+            let cnt = 1 + rng.below(60) as usize;
+            let z = { let z = rng.range(-8, 8) as i32; if z == 0 { -2 } else { z } };
+            let f = |zz: i32| match guarded(|| poisson_approximation(mass, cnt, zz)) {
+                Ok(p) => json!(p.iter().map(|q| json!([hexf(q.mz), hexf(q.intensity)])).collect::<Vec<_>>()), Err(_) => json!("panic") };
+            println!("{}", json!({"id": id, "op": "charge", "mass": hexf(mass), "n": cnt, "z": z, "out": f(z), "neutral": f(0)}));
+        }
+        return;
+    }
     for id in 0..n {
         if id % 2 == 0 {
             let mass = gen_mass(&mut rng);
